@@ -14,6 +14,25 @@ mod shape;
 mod sort_requires;
 mod verify_ast;
 
+/// Verification hooks: compiled only with `--cfg stylua_verif`; no effect on normal builds.
+#[cfg(stylua_verif)]
+pub mod verif {
+    use std::cell::Cell;
+    thread_local! {
+        /// number of `format_function_call` invocations on this thread
+        pub static FUNCTION_CALLS: Cell<u64> = const { Cell::new(0) };
+        /// number of `format_expression_internal` invocations on this thread
+        pub static EXPRESSIONS: Cell<u64> = const { Cell::new(0) };
+    }
+    pub fn reset() {
+        FUNCTION_CALLS.with(|c| c.set(0));
+        EXPRESSIONS.with(|c| c.set(0));
+    }
+    pub fn counters() -> (u64, u64) {
+        (FUNCTION_CALLS.with(|c| c.get()), EXPRESSIONS.with(|c| c.get()))
+    }
+}
+
 /// The Lua syntax version to use
 #[derive(Debug, Default, Copy, Clone, PartialEq, Eq, Deserialize)]
 #[cfg_attr(all(target_arch = "wasm32", feature = "wasm-bindgen"), wasm_bindgen)]
